@@ -922,7 +922,10 @@ def esccall(repo: Repo) -> List[Ob]:
                 for u in uses:
                     if gen in ("trace_out_vector", "measure_vector") and len(u.args) == 2:
                         from ..domains import is_abs2
-                        if is_abs2(u.args[1]) is None:
+                        from ..cfg import resolve_at as _ra
+                        un = cfg.node_containing(u)
+                        operand = _ra(cfg, un, u.args[1], depth=3) if un is not None else u.args[1]     # `populations = square(abs(ps))` read through
+                        if is_abs2(u.args[1]) is None and is_abs2(operand) is None:
                             problems.append(f"the marginalising string of ESC.{gen} is applied to the *amplitude* tensor `{src(u.args[1])[:30]}`: the amplitudes of the other members are summed "
                                             "(a ket has no partial trace; |amplitude|^2 must be taken first or the state promoted to a density matrix)")
                     if len(u.args) - 1 != want_ops:
